@@ -660,6 +660,12 @@ func (x *Exec) mapDom(st *State, mt types.Type) *HArr {
 	base := fmt.Sprintf("%s@%d", sanitize(key), st.epoch)
 	srt := "(Array " + mapKeySort(m) + " Bool)"
 	x.decls.Const(base, "(Array Int "+srt+")")
+	// in the heap this base denotes, a map that contains a key is not empty (length base of the same epoch)
+	lbase := fmt.Sprintf("%s@%d", sanitize("ML."+typeName(mt)), st.epoch)
+	x.decls.Const(lbase, "(Array Int Int)")
+	x.decls.Pat("sel2:"+base, func(args []string) string {
+		return sImp(sSel(sSel(base, args[0]), args[1]), sLe("1", sSel(lbase, args[0])))
+	})
 	h := &HArr{key: key, sort: srt, base: base}
 	st.heap[key] = h
 	return h
@@ -724,7 +730,12 @@ func (x *Exec) mapHas(st *State, m Val, k Val) string {
 	if mt, ok := m.T.Underlying().(*types.Map); ok {
 		st.addKey(flatten(k)[0], mapKeySort(mt))
 	}
-	return sAnd(sNot(sEq(m.S, "0")), sSel(x.mapDom(st, m.T).read(m.S), flatten(k)[0]))
+	has := sAnd(sNot(sEq(m.S, "0")), sSel(x.mapDom(st, m.T).read(m.S), flatten(k)[0]))
+	if !strings.Contains(has, "?") && has != "false" {
+		// a map that contains a key is not empty
+		st.assume(sImp(has, sLe("1", x.mapLenArr(st, m.T).read(m.S))))
+	}
+	return has
 }
 
 func (x *Exec) mapGetRaw(st *State, m Val, k Val) Val {
